@@ -37,6 +37,7 @@ func genCaseC06(t *rapid.T) *Case {
 	c.Assign, c.AnyInstalled = GenAssign(t, g, strategy)
 	c.Warm = GenWarm(t, s, p)
 	c.Op = d.Ops[0].Name
+	c.DepthAfter = rapid.SampledFrom([]int{0, 0, 0, 60, 300}).Draw(t, "maxResolveDepthAfterRoot")
 	return c
 }
 
@@ -143,6 +144,9 @@ func TestC06(t *testing.T) {
 			}
 			if fl.Kind == "lext" {
 				fl.N = rapid.IntRange(0, 3).Draw(rt, label+"n")
+			}
+			if fl.Kind == "ext" {
+				fl.Same = rapid.Bool().Draw(rt, label+"sentinel")
 			}
 			// list accessor failure (root resolver's Nth) when the site holds a non-empty list
 			if base.AnyInstalled {
